@@ -39,6 +39,11 @@ func (a *AttrConditionPlanner) Process(ctx *shared.PlannerContext) (sql.ISelect,
 		return nil, err
 	}
 
+	// the aggregator strips the scope prefix from AggregatedAttr and appends to where: both belong to the
+	// plan, which is executed once per portion of a complex request, so they are put back afterwards
+	planAttr, planWhere := a.AggregatedAttr, a.where
+	defer func() { a.AggregatedAttr, a.where = planAttr, planWhere }()
+
 	err = a.aggregator(main)
 	if err != nil {
 		return nil, err
